@@ -146,6 +146,14 @@ class InlinePass(ir.passes.InPlacePass):
 
     def requires(self, model: ir.Model) -> None:
         self._reset(model)
+        # A function input that a function returns is forwarded through a standard Identity node
+        # (see _instantiate_call). A model-local function with that identifier would capture these
+        # nodes: they would be calls to it, and inlining them never ends when it returns its input.
+        if ("", "Identity", "") in model.functions:
+            raise ir.passes.PreconditionError(
+                "The model defines a local function '::Identity': InlinePass inserts standard "
+                "Identity nodes, which this function would capture"
+            )
         # No cyclic dependencies allowed in functions
         cycle = _detect_function_cycles(model)
         if cycle is not None:
